@@ -38,7 +38,9 @@ func genC12(r *core.Rng) (files map[string]string, program string, class string)
 	}
 	keys := []string{"a", "b", "c", "d", "e", "f", "g", "h", "i", "j", "k", "l", "m", "n", "o", "p", "q", "r", "s"}
 	nk := r.Range(2, len(keys))
-	t := genTable(r, "t", n, []colProfile{{Kind: "k", Vals: keys[:nk]}, {Kind: "ints", NullPct: 5}, {Kind: "text", NullPct: 5}}, []string{"k", "v", "s"})
+	// f: amounts whose partial sums are inexact in binary — the digits of a sum then depend on the order of the additions
+	inexact := []string{"19.99", "0.1", "0.7", "1.005", "33.33", "0.3", "1e-3", "2.675", "1234.56", "0.07", "99.9", "-0.1", "1e10", "7.1"}
+	t := genTable(r, "t", n, []colProfile{{Kind: "k", Vals: keys[:nk]}, {Kind: "ints", NullPct: 5}, {Kind: "text", NullPct: 5}, {Kind: "f", Vals: inexact, NullPct: 3}}, []string{"k", "v", "s", "f"})
 	m := r.Range(3, 200)
 	u := genTable(r, "u", m, []colProfile{{Kind: "k", Vals: keys[:nk]}, {Kind: "ints"}}, []string{"k", "w"})
 	files = map[string]string{"t.csv": t.CSV(), "u.csv": u.CSV()}
@@ -172,6 +174,10 @@ func firstDiff(a, b string) string {
 }
 
 var c12Sel = []string{
+	"SELECT SUM(f) AS s, AVG(f) AS a, STDEV(f) AS sd, VAR(f) AS va, MEDIAN(f) AS md, COUNT(f) AS c FROM t",
+	"SELECT k, SUM(f) AS s, AVG(f) AS a, SUM(f * v) AS sp, STDEVP(f) AS sd FROM t GROUP BY k",
+	"SELECT id, SUM(f) OVER (PARTITION BY k) AS s, AVG(f) OVER () AS a, SUM(f) OVER (ORDER BY id ROWS BETWEEN 90 PRECEDING AND CURRENT ROW) AS w FROM t",
+	"SELECT s, SUM(f) AS sf, AVG(f) AS a FROM t GROUP BY s HAVING SUM(f) > 0",
 	"SELECT id, k, v, s FROM t WHERE v > 2 OR s IS NULL",
 	"SELECT id, v * 2 AS dbl, UPPER(s) AS us FROM t WHERE id % 3 <> 0",
 	"SELECT t.id, u.id AS uid, t.k, u.w FROM t INNER JOIN u ON t.k = u.k AND t.v = u.w",
@@ -210,6 +216,9 @@ var c12Sel = []string{
 	"SELECT k, MEDIAN(v) AS md, STDEV(v) AS sd FROM t GROUP BY k",
 }
 var c12Dml = []string{
+	"CREATE TABLE `totals.csv` AS SELECT k, SUM(f) AS s, AVG(f) AS a FROM t GROUP BY k; SELECT SUM(s) FROM totals",
+	"UPDATE t SET f = (SELECT SUM(x.f) FROM t x) WHERE id % 50 = 1; SELECT AVG(f) FROM t",
+	"INSERT INTO u (id, k, w) SELECT MAX(id) + 100000, k, SUM(f) FROM t GROUP BY k; SELECT SUM(w) FROM u",
 	"DECLARE pick AGGREGATE (c, @k) AS BEGIN VAR @n := 0; VAR @x; WHILE @x IN c DO @n := @n + 1; END WHILE; RETURN @k * 1000 + @n; END; SELECT id, pick(v, id) OVER (PARTITION BY k) FROM t; SELECT k, pick(v, 7) FROM t GROUP BY k",
 	"DECLARE wsum AGGREGATE (c, @w) AS BEGIN VAR @s := 0; VAR @x; WHILE @x IN c DO IF @x IS NOT NULL THEN @s := @s + @x * @w; END IF; END WHILE; RETURN @s; END; SELECT id, wsum(v, id % 3) OVER (PARTITION BY k ORDER BY id) FROM t",
 	"REPLACE INTO t (k, s) USING (k) VALUES ('a', 'ra'), ('b', 'rb'), ('zz', 'new1'), ('c', 'rc'), ('yy', 'new2'); SELECT k, s, COUNT(*) FROM t GROUP BY k, s",
